@@ -20,7 +20,7 @@ def site_of(e):
 
 
 class Outcome:
-    __slots__ = ("kind", "errors", "detail", "site", "file", "segments", "unrecognized", "ntokens", "tokens")
+    __slots__ = ("kind", "errors", "detail", "site", "file", "segments", "unrecognized", "ntokens", "tokens", "seginfo")
 
     def __init__(self):
         self.kind = None          # "ok" | "fatal" | "exc"
@@ -28,7 +28,8 @@ class Outcome:
         self.detail = ""
         self.site = ""
         self.file = None
-        self.segments = []        # (rule name | None, jump, tokens_before)
+        self.segments = []        # (jump, tokens_before, len(history))
+        self.seginfo = []         # (first token column, last token type, scope class, scope lvl, rule, first token line)
         self.unrecognized = 0
         self.ntokens = 0
         self.tokens = None
@@ -70,7 +71,17 @@ def run_text(name, source, debug=0, added_value=None, monitor=False, keep_tokens
 
                 def pop_tokens(n, _o=o, _ctx=ctx, _orig=orig):
                     hist = _ctx.history
-                    _o.segments.append((n, len(_ctx.tokens), len(hist)))
+                    toks = _ctx.tokens
+                    _o.segments.append((n, len(toks), len(hist)))
+                    try:
+                        k = n if isinstance(n, int) else 0
+                        first = toks[0] if toks else None
+                        last = toks[k - 1] if 0 < k <= len(toks) else None
+                        _o.seginfo.append((first.pos[1] if first else None, last.type if last else None,
+                                           type(_ctx.scope).__name__, _ctx.scope.lvl, str(hist[-1]) if hist else None,
+                                           first.pos[0] if first else None))
+                    except Exception:
+                        _o.seginfo.append((None, None, None, None, None, None))
                     return _orig(n)
                 ctx.pop_tokens = pop_tokens
             registry().run(ctx)
